@@ -933,6 +933,10 @@ func (s *Server) processPublish(cl *Client, pk packets.Packet) error {
 		pk.TopicName = cl.State.TopicAliases.Inbound.Set(pk.Properties.TopicAlias, pk.TopicName)
 	}
 
+	if !cl.Net.Inline && pk.TopicName == "" {
+		return s.DisconnectClient(cl, packets.ErrProtocolViolationNoTopic) // the alias is not bound to a topic on this connection
+	}
+
 	if pk.FixedHeader.Qos > s.Options.Capabilities.MaximumQos {
 		pk.FixedHeader.Qos = s.Options.Capabilities.MaximumQos // [MQTT-3.2.2-9] Reduce qos based on server max qos capability
 	}
